@@ -151,6 +151,14 @@ func checkReadWidths(p *Program, r *Result, fns []*ssa.Function) {
 	r.rule("C10.w", "length guards cover the width of the read they protect", 3)
 	for _, fn := range fns {
 		fname := funcName(fn)
+		// an integer assembled from single bytes (b[0] | b[1]<<8 ...) has no width to compare a guard with: every byte
+		// access is a constant index into a window whose bounds the slice expression checks (decided by C10.a/k)
+		for _, in := range instrsOf(fn) {
+			if b, ok := in.(*ssa.BinOp); ok && b.Op == token.OR && (byteOfSlice(b.X) || byteOfSlice(b.Y)) {
+				r.abstain("C10.w", fname, "integer assembled from single bytes", p.pos(b.Pos()), "the read is assembled byte by byte; there is no multi-byte read whose width a guard constant could fall short of")
+				break
+			}
+		}
 		for _, ci := range callsIn(fn, func(ci ssa.CallInstruction) bool {
 			c, ok := ci.(*ssa.Call)
 			return ok && isDecodeCall(c)
